@@ -11,14 +11,16 @@ func S(s string) *Node {
 	}
 	return n
 }
-func Cat(k ...*Node) *Node           { return &Node{K: KConcat, Kids: k} }
-func Or(k ...*Node) *Node            { return &Node{K: KAlt, Kids: k} }
-func NC(k *Node) *Node               { return &Node{K: KGroup, Kids: []*Node{k}} }
-func At(k *Node) *Node               { return &Node{K: KAtomic, Kids: []*Node{k}} }
-func Anch(a string) *Node            { return &Node{K: KAnchor, Anchor: a} }
-func Dot() *Node                     { return &Node{K: KAny} }
-func Rep(k *Node, mn, mx int) *Node  { return &Node{K: KRepeat, Min: mn, Max: mx, Kids: []*Node{k}} }
-func RepL(k *Node, mn, mx int) *Node { return &Node{K: KRepeat, Min: mn, Max: mx, Lazy: true, Kids: []*Node{k}} }
+func Cat(k ...*Node) *Node          { return &Node{K: KConcat, Kids: k} }
+func Or(k ...*Node) *Node           { return &Node{K: KAlt, Kids: k} }
+func NC(k *Node) *Node              { return &Node{K: KGroup, Kids: []*Node{k}} }
+func At(k *Node) *Node              { return &Node{K: KAtomic, Kids: []*Node{k}} }
+func Anch(a string) *Node           { return &Node{K: KAnchor, Anchor: a} }
+func Dot() *Node                    { return &Node{K: KAny} }
+func Rep(k *Node, mn, mx int) *Node { return &Node{K: KRepeat, Min: mn, Max: mx, Kids: []*Node{k}} }
+func RepL(k *Node, mn, mx int) *Node {
+	return &Node{K: KRepeat, Min: mn, Max: mx, Lazy: true, Kids: []*Node{k}}
+}
 func Look(ahead, neg bool, k *Node) *Node {
 	return &Node{K: KLook, Ahead: ahead, Neg: neg, Kids: []*Node{k}}
 }
@@ -59,6 +61,11 @@ func (t *T) set() *Node {
 		a, b := t.l(), t.l()
 		if a > b {
 			a, b = b, a
+		}
+		if pairSegment(a) != pairSegment(b) && b >= 0x80 {
+			// a range that leaves one run of simple-pair letters (and ASCII) takes in letters with
+			// irregular case mappings (U+0130, U+0131, U+017F, ...), which the IgnoreCase oracles do not model
+			b = a
 		}
 		return Cls(false, CRange(a, b))
 	case 4:
@@ -107,7 +114,7 @@ var TemplateNames = []string{
 	"leading-lookahead", "bumpalong-loop", "loop-then-x", "loop-ending-loop-body", "alt-shared-prefix",
 	"alt-shared-set-prefix", "atomic-alternation", "nested-atomic", "lookbehind-loop", "conditional-loop",
 	"wide-literal", "negated-first-set", "counted-group-loop", "lazy-loop-then-x", "alt-with-empty",
-	"start-anchor-G", "backref-after-loop", "lookaround-conditional", "alt-counted-set-prefix", "loop-then-optional-group", "group-loop-overlapping-head", "long-literal", "lookbehind-group-loop", "landmark-overlap", "lazy-group-loop", "capture-loop-backref", "long-counted-set", "balancing-pop",
+	"start-anchor-G", "backref-after-loop", "lookaround-conditional", "alt-counted-set-prefix", "loop-then-optional-group", "group-loop-overlapping-head", "long-literal", "lookbehind-group-loop", "landmark-overlap", "lazy-group-loop", "capture-loop-backref", "long-counted-set", "balancing-pop", "balancing-pop-mirrored",
 }
 
 // Template builds template number k with random leaves.
@@ -321,6 +328,23 @@ func (t *T) Template(k int) *Node {
 			popNode = Rep(pop, pq[0], pq[1])
 		}
 		return Cat(Rep(push, 1, -1), popNode, t.tail())
+	case "balancing-pop-mirrored":
+		// the mirror image of balancing-pop: read right to left the pushes come first, so the cancelled
+		// capture lies to the right of the balancing group (left to right the pop finds nothing to pop)
+		a, b := t.l(), t.l()
+		t.gid = 2
+		push := &Node{K: KGroup, Capture: true, GID: 1, Name: "a", Kids: []*Node{L(a)}}
+		pop := &Node{K: KBalance, GID: 2, Ref: 1, ByName: true, Kids: []*Node{L(b)}}
+		if t.R.Intn(2) == 0 {
+			pop.Name = "c"
+		}
+		pq := [][2]int{{1, 1}, {1, 2}, {2, 2}, {1, -1}}[t.R.Intn(4)]
+		var popNode *Node = pop
+		if !(pq[0] == 1 && pq[1] == 1) {
+			popNode = Rep(pop, pq[0], pq[1])
+		}
+		mid := []*Node{&Node{K: KEmpty}, L(t.l()), t.loop(t.unit())}[t.R.Intn(3)]
+		return Cat(t.tail(), popNode, mid, Rep(push, 1, -1))
 	case "lookaround-conditional":
 		return Cat(&Node{K: KCondExpr, Kids: []*Node{Look(t.R.Intn(2) == 0, t.R.Intn(2) == 0, Cat(t.unit(), t.loop(t.unit()))), Cat(t.unit(), t.loop(t.unit())), Cat(t.loop(t.unit()), t.unit())}}, t.tail())
 	}
